@@ -900,9 +900,14 @@ META = {
             "selection, split of multi-premise aggregating rules) and of evalDo with the reducers count/sum/min/max/avg/"
             "collect/collect_distinct applied once after the stratum's fixpoint, on top of the C01 engine model: for all "
             "row lists the emitted facts are exactly one per distinct key with every reducer applied to exactly the rows of "
-            "that key and nothing for no rows; under pairwise distinct generated names that no other rule defines, the "
-            "internal relation of a rule holds exactly that rule's own body solutions; generated names for one head are "
-            "pairwise distinct; the pre-fix counter (F2), the pre-fix single-atom test (F2c) and the non-injective name "
+            "that key and nothing for no rows; for every stratum whose generated names are pairwise distinct and in which no "
+            "user predicate ends in __tmp, the rewritten stratum contains for the split rule at any position its internal "
+            "clause and its transformed rule, no other clause defines that internal name, and after the stratum's fixpoint "
+            "the internal relation holds exactly that rule's own body solutions (rewrite_isolated; the heads of the "
+            "rewritten clauses are the user's plus each generated name once); two generated names coincide exactly when "
+            "one head symbol is the other followed by digits that prefix the other counter's decimal, so they are pairwise "
+            "distinct whenever no head symbol ends in a digit, and always for one head symbol; the pre-fix counter (F2), "
+            "the pre-fix single-atom test (F2c) and the non-injective name "
             "scheme (F2b) are refuted by witnesses. Tied to the Go code on every run by evaluating generated programs with "
             "1-3 aggregating rules per head (single/multi-atom bodies, same head twice, aggregation over recursive strata, "
             "two aggregation levels) on the fact-store kinds and judging Go's facts both against the model and with an "
